@@ -11,6 +11,7 @@ import (
 	"math/rand"
 	"os"
 	"sort"
+	"strings"
 	"sync"
 	"sync/atomic"
 	"time"
@@ -263,6 +264,53 @@ func oneRun(r *rep.Report, spec runSpec) {
 			}
 			if !ok {
 				return // the cron is wedged: Kill would block, too
+			}
+		}
+	case "reversed-range-schedule":
+		// cron expressions with a range that runs backwards ("5-2 * * * *"): a result or an error, and
+		// the cron goes on serving the other jobs (their own cron, in case it does not)
+		{
+			odd, err := cron.NewCron(cron.NewCronBroadcaster(), 150*time.Millisecond, "verif-odd", 1000)
+			if err != nil {
+				r.Violate("", "NewCron failed: "+err.Error(), nil)
+				return
+			}
+			odd.Start(ctx)
+			results := map[string]string{}
+			stuck := false
+			for _, sch := range []string{"5-2 * * * *", "* 23-1 * * *", "30-10/5 * * * *", "* * * 12-1 *"} {
+				sch := sch
+				var aerr error
+				ret, pan := drv.Guard(5*time.Second, func() { aerr = odd.Add(ctx, "odd "+sch, sch, func(time.Time) error { return nil }) })
+				switch {
+				case !ret:
+					results[sch] = "did not return within 5 s"
+					stuck = true
+				case pan != "":
+					results[sch] = "panicked: " + strings.SplitN(pan, "\n", 2)[0]
+				default:
+					results[sch] = "error: " + drv.ErrStr(aerr)
+				}
+			}
+			var fired int64
+			ret, _ := drv.Guard(5*time.Second, func() {
+				odd.Add(ctx, "plain", "+200ms", func(time.Time) error { atomic.AddInt64(&fired, 1); return nil })
+			})
+			time.Sleep(1200 * time.Millisecond)
+			r.Count("reversed_range_schedules", 4)
+			bad := stuck || !ret || atomic.LoadInt64(&fired) != 1
+			for _, v := range results {
+				if strings.HasPrefix(v, "panicked") {
+					bad = true
+				}
+			}
+			if !canaryOK() {
+				r.Inconclusive("canary late")
+			} else if bad {
+				r.Violate("", "a cron expression with a reversed range made Add panic or left the cron unable to take and fire other jobs", rep.J{"run": spec, "add_results": results, "later_add_returned": ret, "later_job_fires": atomic.LoadInt64(&fired)})
+			}
+			if !stuck && ret {
+				odd.Kill(ctx)
 			}
 		}
 	case "recurring-at-the-limit":
@@ -594,7 +642,7 @@ func main() {
 	e := rep.GetEnv()
 	r := rep.New(e)
 	r.Note("hooks_compiled_in", hook.Enabled())
-	patterns := []string{"rem-head-then-quiet", "replace-head-later", "add-earlier-than-head", "add-during-suspend", "pause", "rem-recurring-during-run", "replace-recurring-during-run", "replace-recurring-both-running", "rem-readd-recurring-both-running", "recurring-callback-error", "command-burst", "recurring-at-the-limit", "no-occurrence-schedule", "concurrent-adds-one-id", "recurring", "random", "random", "random"}
+	patterns := []string{"rem-head-then-quiet", "replace-head-later", "add-earlier-than-head", "add-during-suspend", "pause", "rem-recurring-during-run", "replace-recurring-during-run", "replace-recurring-both-running", "rem-readd-recurring-both-running", "recurring-callback-error", "command-burst", "reversed-range-schedule", "recurring-at-the-limit", "no-occurrence-schedule", "concurrent-adds-one-id", "recurring", "random", "random", "random"}
 	rounds := e.Pick(1, 4)
 	var wg sync.WaitGroup
 	for round := 0; round < rounds; round++ {
